@@ -17,7 +17,7 @@ class Exec:
         return dict(seed=self.seed, steps=self.steps, profile=self.profile, bits=self.bits)
 
 
-def run_exec(exe, ex, keep_db=False, env=None, timeout=300):
+def run_exec(exe, ex, keep_db=False, env=None, timeout=90):
     d = c.scratch('seq')
     ex.dir = d
     ex.trace = os.path.join(d, 'trace.ndjson')
